@@ -77,7 +77,7 @@ def _v40(repo, mod):
 @variant("C12", "fitness-sum-memoised", CC, "C12.laws", "sum of the fitness values memoised and not reset when a value is added")
 def _v41(repo, mod):
     from sa.selftest.harness import text_edit
-    src = text_edit(mod, "        return sum(self._fitness_cache.values())\n", "        if getattr(self, '_total', None) is None:\n            self._total = sum(self._fitness_cache.values())\n        return self._total\n")
+    src = text_edit(mod, "        return sum(self._fitness_cache.values())\n", "        try:\n            total = self._total\n        except AttributeError:\n            total = None\n        if total is None:\n            self._total = total = sum(self._fitness_cache.values())\n        return total\n")
     return src.replace("        self._fitness_cache.clear()\n", "        self._fitness_cache.clear()\n        self._total = None\n", 1)
 
 
@@ -86,3 +86,10 @@ def _v42(repo, mod):
     fn = repo.func(CC, "ComputationCache._check_cache")
     t = find_node(fn, lambda n: isinstance(n, ast.BoolOp) and isinstance(n.op, ast.Or) and "len(cache) != len(funcs)" in norm(n))
     return replace_node(mod, t, "(only is not None and only not in cache) or len(funcs) != len(cache)")
+
+
+@variant("C12", "restored-fitness-without-covered-verdict", CC, "C12.laws", "set_fitness_values leaves the covered verdict of the modified test (the repaired defect)")
+def _v43(repo, mod):
+    fn = repo.func(CC, "ComputationCache.set_fitness_values")
+    s = find_stmt(fn, lambda s: isinstance(s, ast.Assign) and "_is_covered_cache" in norm(s.targets[0]))
+    return delete_stmt(mod, s)
